@@ -132,6 +132,51 @@ def job_kernels_ub(tier, seed):
     return ck.export()
 
 
+def job_icu_vectors(tier, seed):
+    """guest-programmable interrupt vectors stay inside the 18-bit program space: the MMIO vector registers keep the high part
+    of each vector within its 2-bit field, and - given that - a vectored delivery hands the core an address below 0x40000
+    (the core copies it into pc without a further check, and the next fetch indexes program memory with it)"""
+    from checks import graph, c12
+    G = graph.get()
+    ex, st0, ctx, A, names, nstor = c12.overlay(G)
+    ck = core.Check('C18', 'model_checking', tier, seed)
+    L = G.L
+    impl = ctx['impl']
+    v = z3.BitVec('v', 16)
+    off, sz, cnt, stride = L['ICU']['vector_high']
+    for n_ in range(16):
+        s1 = st0.fork()
+        try:
+            ex.exits = []
+            ex.call(s1, '@ti_mmio_write', [impl, 0x212 + 4 * n_, v])
+        except (Abort, UnwindBound) as x:
+            ck.inconclusive.append('Icu.vector_high.range[%d]: %s' % (n_, str(x)[:100]))
+            continue
+        ck.nstates += 1
+        hi = bv(ex.load(s1, Ptr(impl.r, G.off['icu'] + off + n_ * stride), sz), 8 * sz)
+        ck.prove('Icu.vector_high.range[%d]' % n_, A, z3.ULE(hi, 3), vars={'v': v}, witness=(n_ == 0),
+                 sample='MMIO write of any 16-bit value to the vector register of IRQ %d leaves the high part of the vector within 2 bits (icu.md: VADDR_H[1:0])' % n_ if n_ in (0, 15) else None)
+    # delivery: software trigger of any IRQ set from any ICU state whose vectors are in range
+    PT = kit.find_type(G.mod, 'Teakra::Processor::Impl"')
+    poff = G.mod.offsets(PT)
+    pr = ctx['proc']
+    IL = L['Interpreter']
+    inrange = [z3.ULE(names['icu.vector_high[%d]' % k], 3) for k in range(16)]
+    s1 = st0.fork()
+    s1.pc += inrange
+    try:
+        ex.call(s1, '@ti_mmio_write', [impl, 0x204, v])
+        addr = bv(ex.load(s1, Ptr(pr.r, pr.o + poff[2] + IL['vinterrupt_address'][0]), 4), 32)
+        ck.nstates += 1
+        pend = bv(ex.load(s1, Ptr(pr.r, pr.o + poff[2] + IL['vinterrupt_pending'][0]), 1), 8)
+        ck.prove('Icu.vector_delivery.range', A + inrange, z3.Implies(pend != 0, z3.ULT(addr, 0x40000)), vars=dict({'v': v}, **{n: t for n, t in names.items() if n.startswith('icu.')}),
+                 sample='with every vector high part within 2 bits, a vectored delivery (software trigger of any set of IRQs, any enable / vector state) latches an address below 0x40000 for the core')
+    except (Abort, UnwindBound) as x:
+        ck.inconclusive.append('Icu.vector_delivery.range: %s' % str(x)[:100])
+    ck.ninstr += ex.ninstr
+    return ck.export()
+
+
 def abort_replayer(E, i):
     def rp(inputs):
         tw = interp._twin_cache.get(E.tree) or interp._twin_cache.setdefault(E.tree, interp.Twin(E))
@@ -360,6 +405,7 @@ def run(tier, seed):
     jobs = [(job_row, (i, False, tier, seed)) for i in rows] + [(job_run, (tier, seed)), (job_dma, (tier, seed)), (job_mem, (tier, seed)), (job_ahbm, (tier, seed))]
     env(True)
     jobs.append((job_kernels_ub, (tier, seed)))
+    jobs.append((job_icu_vectors, (tier, seed)))
     if tier == 'thorough':
         jobs += [(job_row, (i, True, tier, seed)) for i in range(n)]
     elif chg:
